@@ -638,3 +638,8 @@ def _traversal(ctx: Ctx, rep: Report, f: Func) -> None:  # noqa: C901
                 f"(items={ok_items}, start={ok_start}, step={ok_step}, result kept={assigns}, guarded={guarded})",
                 where(f, call),
             )
+
+
+# what the later rounds (seeding rounds 2-5, refactor twins, defect hunt) added to what the check decides
+LATER_ROUNDS = "an empty nested group cannot send the descent back to the caller's own list, every rendering path starts with the number"
+EXPLANATION = EXPLANATION.replace(" Does not decide", " Later rounds added: " + LATER_ROUNDS + ". Does not decide", 1) if " Does not decide" in EXPLANATION else EXPLANATION + " Later rounds added: " + LATER_ROUNDS + "."
